@@ -4,7 +4,9 @@ replace of keep-core by /repo's working tree)."""
 import os, re, shutil, sys
 REPO = os.environ.get("VERIF_REPO", "/repo")
 here = os.path.dirname(os.path.abspath(__file__))
-h = os.path.join(here, "..", "harness")
+# optional argument: directory for go.mod/go.sum (used with `go build -modfile`); default harness/
+h = os.path.abspath(sys.argv[1]) if len(sys.argv) > 1 else os.path.join(here, "..", "harness")
+os.makedirs(h, exist_ok=True)
 src = open(os.path.join(REPO, "go.mod")).read()
 src = re.sub(r'^module .*$', 'module verifharness', src, count=1, flags=re.M)
 src += '\nrequire github.com/keep-network/keep-core v0.0.0\n'
@@ -12,4 +14,7 @@ src += '\nreplace github.com/keep-network/keep-core => %s\n' % REPO
 p = os.path.join(h, "go.mod")
 if not os.path.exists(p) or open(p).read() != src:
     open(p, "w").write(src)
-shutil.copyfile(os.path.join(REPO, "go.sum"), os.path.join(h, "go.sum"))
+sumsrc = open(os.path.join(REPO, "go.sum")).read()
+ps = os.path.join(h, "go.sum")
+if not os.path.exists(ps) or open(ps).read() != sumsrc:
+    open(ps, "w").write(sumsrc)
